@@ -80,7 +80,9 @@ def fanout(P, R):
         R.ob('C18.GRD.1', okx, s, 'the loop covers the whole vector (index < used)', key='extent:%s' % which)
         # no early exit from the loop: no break/return inside (the call block's loop has a single exit: the bound)
         inits = [t for t in f.stores() if t.ev['k'] == 'store' and iv and is_var(t.ev.get('lhs'), iv[0]) and t.ev.get('op') == '=']
-        R.ob('C18.GRD.1', bool(inits) and all(const_of(final(t.ev.get('rhs'))) == 0 for t in inits), s, 'the loop starts at the first destination', key='start:%s' % which, nontrivial=False)
+        dinits = [t for t in f.sites() if t.ev['k'] == 'decl' and iv and t.ev.get('var') == iv[0] and t.ev.get('init') is not None]
+        R.ob('C18.GRD.1', bool(inits or dinits) and all(const_of(final(t.ev.get('rhs'))) == 0 for t in inits) and all(const_of(final(t.ev.get('init'))) == 0 for t in dinits), s,
+             'the loop starts at the first destination', key='start:%s' % which, nontrivial=False)
     # no early exit: a delivery loop is only left through its own bound test
     for s in calls:
         loop = {b for b in f.reach([s.bid]) if s.bid in f.reach([b])}
